@@ -11,7 +11,7 @@ PROPS = ["C%02d" % i for i in range(1, 21)]
 
 def build_table():
     reg = registry()
-    L = ["| id | rules run by the check (own and shared) | obligations decided today (quick) | quick | thorough: seeded / repair inverses / refactorings silent / mechanical transformations silent / survey mutants reported |", "|----|----|----|----|----|"]
+    L = ["| id | rules run by the check (own and shared) | obligations decided today (quick) | wall time of the last run (thorough tier, 16 workers) | thorough: seeded / repair inverses / refactorings silent / mechanical transformations silent / survey mutants reported |", "|----|----|----|----|----|"]
     for p in PROPS:
         ev = json.load(open(os.path.join(V, "evidence", p + ".json")))
         cov = ev["coverage"]
@@ -24,7 +24,7 @@ def build_table():
         n = cov["obligations"]
         if "deep_pass" in cov:
             n = "%d (+%d in the deep pass)" % (cov["obligations"] - cov["deep_pass"]["additional_obligations"], cov["deep_pass"]["additional_obligations"])
-        L.append("| %s | %s%s | %s%s | %.1f s | %s |" % (p, " ".join(r.split(".", 1)[1] for r in own), (" + " + ", ".join(shared)) if shared else "", n, " (%d known)" % known if known else "", ev["wall_s"] if ev["tier"] == "quick" else float("nan"), thor))
+        L.append("| %s | %s%s | %s%s | %.1f s | %s |" % (p, " ".join(r.split(".", 1)[1] for r in own), (" + " + ", ".join(shared)) if shared else "", n, " (%d known)" % known if known else "", ev["wall_s"], thor))
     return "\n".join(L)
 
 
